@@ -7,8 +7,8 @@ the cryptographic and TEAL parameters (`Env`); the tamper theorems additionally 
 address hashes, as explicit hypotheses (`SigBinds`, `SigUnique`, `MsigAddrInj`, `ProgAddrInj`) — never axioms.
 
   decision logic (full):   msig_iff, pq_iff, lsig_iff, stateless_iff, authz_iff, group_ok_iff, two_kinds_rejected,
-                           no_kind_rejected, msig_duplicate_entries_count
-  tampering (ideal crypto): sig_binds, msig_binds, pq_binds, tamper_rejected, tamper_rejected_pq, tamper_sig_rejected, tamper_subsig_rejected,
+                           no_kind_rejected, msig_duplicate_entries_count, msig_threshold_genuine
+  tampering (ideal crypto): msig_copied_signature_rejected, sig_binds, msig_binds, pq_binds, tamper_rejected, tamper_rejected_pq, tamper_sig_rejected, tamper_subsig_rejected,
                            msig_params_bound, lsig_contract_program_bound, lsig_delegated_program_bound
   what is NOT guaranteed (as coded): msig_surplus_signature_removable, lsig_does_not_sign_txn
   rekeying:                rekey_changes_authorizer, rekey_to_self_clears, rekey_absent_keeps, after_rekey_only_new_key
@@ -170,6 +170,41 @@ theorem msig_binds (E : Env T) (P : Params) (hB : SigBinds E) (gi gi' : Nat) (gr
   obtain ⟨x, hx, hxb⟩ := exists_signed_of_signatures E (s0 :: rest) (by omega)
   obtain ⟨_, hm⟩ := hB _ _ _ _ _ (hall' x hx hxb) (hall x hx hxb)
   exact ⟨by injection hm, by rw [ha, ha']⟩
+
+/-- WHO COUNTS TOWARD THE THRESHOLD: in an accepted multisignature at least `threshold` subsig ENTRIES carry a signature
+    that verifies under THAT ENTRY'S OWN key (every present signature is checked against the key of its own slot, none
+    is skipped).  With ideal signatures an entry's signature can only have been made by the holder of that entry's key. -/
+theorem msig_threshold_genuine (E : Env T) (msg : Msg T) (addr : T.Addr) (m : MSig T) (h : msigVerify E msg addr m = true) :
+    m.threshold ≤ (m.subs.filter fun s => !E.sigBlank s.sig && E.sigOk s.key msg s.sig).length := by
+  rw [msig_iff] at h
+  obtain ⟨s0, rest, e, _, _, _, _, _, _, hsg, hall⟩ := h
+  have hs : m.subs = s0 :: rest := by unfold MSig.subs; rw [e]
+  rw [hs]
+  have : (List.filter (fun s => !E.sigBlank s.sig) (s0 :: rest)) =
+      (List.filter (fun s => !E.sigBlank s.sig && E.sigOk s.key msg s.sig) (s0 :: rest)) := by
+    apply List.filter_congr
+    intro x hx
+    cases hb : E.sigBlank x.sig
+    · simp [hall x hx hb]
+    · simp
+  unfold signatures at hsg
+  rw [this] at hsg
+  exact hsg
+
+/-- A SIGNATURE COPIED INTO ANOTHER MEMBER'S SLOT IS REJECTED: if two subsig entries with DIFFERENT keys carry the same
+    non-blank signature value, the multisignature does not verify — one member cannot fill a second member's slot with
+    his own signature (a verifier that checks a repeated signature value only once would break exactly this) -/
+theorem msig_copied_signature_rejected (E : Env T) (hB : SigBinds E) (msg : Msg T) (addr : T.Addr) (m : MSig T)
+    (x y : SubSig T) (hx : x ∈ m.subs) (hy : y ∈ m.subs) (hsame : y.sig = x.sig) (hnb : E.sigBlank x.sig = false)
+    (hkeys : x.key ≠ y.key) : msigVerify E msg addr m = false := by
+  cases h : msigVerify E msg addr m
+  · rfl
+  · rw [msig_iff] at h
+    have hv := ((msigValid_iff_shape E _ _ _).mp h).2
+    have h1 := hv x hx hnb
+    have h2 := hv y hy (by rw [hsame]; exact hnb)
+    rw [hsame] at h2
+    exact absurd (hB _ _ _ _ _ h1 h2).1 hkeys
 
 /-- ANY CHANGE TO THE SIGNED BYTES IS REJECTED: a transaction accepted with a plain signature or a multisignature is
     rejected (at any position of any group) once its transaction bytes differ while the signature material is kept -/
@@ -504,6 +539,12 @@ example : rekey exEnv (.raw 5) 33 = .raw 0 := by decide
 example : acceptTxn exEnv exP 0 [sOld] (rekey exEnv (.raw 5) 33) sOld = true := by decide
 example : evalAuthCheck exEnv (rekey exEnv (.raw 0) 35) sNew = true ↔ authorizer exEnv sNew = .raw 5 :=
   (rekey_changes_authorizer exEnv (.raw 0) 35 (.raw 5) sNew rfl (by decide) (by decide)).2
+/-- member 1's signature copied into member 2's slot of the 2-of-3: rejected, by evaluation and by the theorem -/
+def sMsigCopied : STxn exT := { sMsig with msig := m23 (some (1, .txn 40)) (some (1, .txn 40)) none }
+example : acceptTxn exEnv exP 0 [sMsigCopied] (.msig 1 2 [1, 2, 3]) sMsigCopied = false := by decide
+example : msigVerify exEnv (.txn 40) (.msig 1 2 [1, 2, 3]) sMsigCopied.msig = false :=
+  msig_copied_signature_rejected exEnv exSigBinds (.txn 40) _ sMsigCopied.msig ⟨1, some (1, .txn 40)⟩ ⟨2, some (1, .txn 40)⟩
+    (by simp [sMsigCopied, m23, MSig.subs]) (by simp [sMsigCopied, m23, MSig.subs]) rfl (by decide) (by decide)
 /-- a 2-of-2 of the same key twice: one key holder suffices (as coded) -/
 example : msigVerify exEnv (.txn 40) (.msig 1 2 [1, 1]) ⟨1, 2, some [⟨1, some (1, .txn 40)⟩, ⟨1, some (1, .txn 40)⟩]⟩ = true :=
   msig_duplicate_entries_count exEnv (.txn 40) 1 (some (1, .txn 40)) (by decide) (by decide) (by decide)
